@@ -15,8 +15,14 @@
 //! current last item must panic: observed as `panic`, which is a violation only when the
 //! reference says the push was legal (or legal but did not panic).
 //!
+//! Large deques (`conv pair digest` / `conv whole digest`, the "large" generator profile:
+//! hundreds to thousands of keys, so that anything that only happens once a deque spans a
+//! page or holds mostly tombstones is reached): the per-op observation is reduced to the
+//! return value, `first()`, `last()`, `is_empty()`, and `iter` answers `#<count>:<FNV-1a 64 of
+//! the item list as text>` instead of the list.  The oracle is the same `BTreeMap`.
+//!
 //! Op vocabulary (same as `lean/Woodpile/Driver/SortedDeque.lean`):
-//!   conv pair|whole | push k v | find k v | remove k v | pop_first | pop_last | first | last
+//!   conv pair|whole [digest] | push k v | find k v | remove k v | pop_first | pop_last | first | last
 //!   | is_empty | iter | clear | new k:v,k:v,.. | at n <op>       (`v` = `-` for an erased item)
 use crate::util::*;
 use sliding_deque::traits::{PushTruncateContainer, SortedDequeComparator, SortedDequeItem, SortedDequeMarker};
@@ -190,6 +196,25 @@ fn fmt_line(ret: &str, iter: &[Raw], first: Option<Raw>, last: Option<Raw>, empt
     )
 }
 
+/// FNV-1a, 64 bit (the Lean driver computes the same)
+pub fn fnv64(bytes: &[u8]) -> u64 {
+    let mut h: u64 = 0xcbf29ce484222325;
+    for b in bytes {
+        h ^= *b as u64;
+        h = h.wrapping_mul(0x100000001b3);
+    }
+    h
+}
+
+/// `#<count>:<hash of the list as text>`
+fn fmt_list_digest(l: &[Raw]) -> String {
+    format!("#{}:{:016x}", l.len(), fnv64(fmt_list(l).as_bytes()))
+}
+
+fn fmt_line_digest(ret: &str, first: Option<Raw>, last: Option<Raw>, empty: bool) -> String {
+    format!("{} first={} last={} empty={}", ret, fmt_opt(first), fmt_opt(last), if empty { 1 } else { 0 })
+}
+
 /// Are all raw items representable / all lookup keys well-formed in this convention?
 fn op_ok<V: Convn>(op: &SOp) -> bool {
     match op {
@@ -201,7 +226,7 @@ fn op_ok<V: Convn>(op: &SOp) -> bool {
 }
 
 /// One op on a real deque, then the observation of the new state.
-fn apply_real<C, V>(d: &mut SortedDeque<C>, op: &SOp) -> String
+fn apply_real<C, V>(d: &mut SortedDeque<C>, op: &SOp, digest: bool) -> String
 where
     V: Convn,
     C: PushTruncateContainer<Item = V::Item> + Clone + Default + FromIterator<V::Item>,
@@ -219,6 +244,7 @@ where
         SOp::First => fmt_opt(d.first().map(V::raw)),
         SOp::Last => fmt_opt(d.last().map(V::raw)),
         SOp::IsEmpty => (if d.is_empty() { "1" } else { "0" }).to_string(),
+        SOp::Iter if digest => fmt_list_digest(&d.iter().map(V::raw).collect::<Vec<_>>()),
         SOp::Iter => fmt_list(&d.iter().map(V::raw).collect::<Vec<_>>()),
         SOp::Clear => {
             d.clear();
@@ -229,6 +255,9 @@ where
             "()".to_string()
         }
     };
+    if digest {
+        return fmt_line_digest(&ret, d.first().map(V::raw), d.last().map(V::raw), d.is_empty());
+    }
     let iter: Vec<Raw> = d.iter().map(V::raw).collect();
     let first = d.first().map(V::raw);
     let last = d.last().map(V::raw);
@@ -238,7 +267,7 @@ where
 }
 
 /// The same op on the reference ordered map; `None` = this push must panic.
-fn apply_ref<V: Convn>(m: &mut BTreeMap<V::Key, V::Item>, op: &SOp) -> Option<String> {
+fn apply_ref<V: Convn>(m: &mut BTreeMap<V::Key, V::Item>, op: &SOp, digest: bool) -> Option<String> {
     let ret = match op {
         SOp::Push(r) => {
             let item = V::item(*r).unwrap();
@@ -259,6 +288,7 @@ fn apply_ref<V: Convn>(m: &mut BTreeMap<V::Key, V::Item>, op: &SOp) -> Option<St
         SOp::First => fmt_opt(m.first_key_value().map(|(_, x)| V::raw(x))),
         SOp::Last => fmt_opt(m.last_key_value().map(|(_, x)| V::raw(x))),
         SOp::IsEmpty => (if m.is_empty() { "1" } else { "0" }).to_string(),
+        SOp::Iter if digest => fmt_list_digest(&m.values().map(V::raw).collect::<Vec<_>>()),
         SOp::Iter => fmt_list(&m.values().map(V::raw).collect::<Vec<_>>()),
         SOp::Clear => {
             m.clear();
@@ -275,9 +305,12 @@ fn apply_ref<V: Convn>(m: &mut BTreeMap<V::Key, V::Item>, op: &SOp) -> Option<St
             "()".to_string()
         }
     };
-    let iter: Vec<Raw> = m.values().map(V::raw).collect();
     let first = m.first_key_value().map(|(_, x)| V::raw(x));
     let last = m.last_key_value().map(|(_, x)| V::raw(x));
+    if digest {
+        return Some(fmt_line_digest(&ret, first, last, m.is_empty()));
+    }
+    let iter: Vec<Raw> = m.values().map(V::raw).collect();
     let probes: Vec<Option<Raw>> = V::probes().iter().map(|k| m.get(k).map(V::raw)).collect();
     Some(fmt_line(&ret, &iter, first, last, m.is_empty(), &probes))
 }
@@ -316,6 +349,8 @@ where
     cur: St<V>,
     snaps: Vec<St<V>>,
     dead: bool,
+    /// reduced observations (large deques)
+    digest: bool,
 }
 
 impl<V: Convn> Runner<V>
@@ -327,8 +362,8 @@ where
         St { v: Default::default(), s: Default::default(), r: BTreeMap::new(), seen: BTreeMap::new(), lawful: true, tombs: BTreeSet::new() }
     }
 
-    fn new() -> Self {
-        Runner { cur: Self::fresh(), snaps: vec![Self::fresh()], dead: false }
+    fn new(digest: bool) -> Self {
+        Runner { cur: Self::fresh(), snaps: vec![Self::fresh()], dead: false, digest }
     }
 
     /// Bookkeeping for the preconditions of the property (not part of the observation).
@@ -363,6 +398,7 @@ where
 
     fn run_op(&mut self, op: &SOp, text: &str) -> StepOut {
         let mut so = StepOut::default();
+        let digest = self.digest;
         let cur = &mut self.cur;
         Self::track(cur, op);
         // statistics: which structural situations does this op meet?
@@ -373,7 +409,7 @@ where
                 so.tags.push("lookup_of_tombstoned_key".into());
             }
         }
-        let expected = apply_ref::<V>(&mut cur.r, op);
+        let expected = apply_ref::<V>(&mut cur.r, op, digest);
         let after = raw_keys(&cur.r);
         if let SOp::Remove(r) = op {
             if before.len() == after.len() + 1 && before.first() != Some(&r.0) && before.last() != Some(&r.0) {
@@ -393,8 +429,8 @@ where
             so.tags.push(format!("{}_cleans_up_tombstones", text.split(' ').next().unwrap_or("?")));
         }
         let real = catch_unwind(AssertUnwindSafe(|| {
-            let a = apply_real::<Vec<V::Item>, V>(&mut cur.v, op);
-            let b = apply_real::<SmallVec<[V::Item; 4]>, V>(&mut cur.s, op);
+            let a = apply_real::<Vec<V::Item>, V>(&mut cur.v, op, digest);
+            let b = apply_real::<SmallVec<[V::Item; 4]>, V>(&mut cur.s, op, digest);
             (a, b)
         }));
         let name = text.split(' ').next().unwrap_or("?");
@@ -442,6 +478,12 @@ where
                 }
                 if cur.r.len() > 4 {
                     so.tags.push("len_gt_inline".into());
+                }
+                if cur.r.len() >= 512 {
+                    so.tags.push("live_ge_512".into());
+                }
+                if cur.tombs.len() >= 256 && cur.tombs.len() > cur.r.len() {
+                    so.tags.push("mostly_tombstones_ge_256".into());
                 }
                 so.obs.push(a);
             }
@@ -494,12 +536,20 @@ impl Exec for SortedExec {
     fn step(&mut self, w: &[&str]) -> StepOut {
         match w {
             ["conv", "pair"] => {
-                self.mode = Mode::Pair(Runner::new());
+                self.mode = Mode::Pair(Runner::new(false));
                 StepOut::obs("conv pair")
             }
             ["conv", "whole"] => {
-                self.mode = Mode::Whole(Runner::new());
+                self.mode = Mode::Whole(Runner::new(false));
                 StepOut::obs("conv whole")
+            }
+            ["conv", "pair", "digest"] => {
+                self.mode = Mode::Pair(Runner::new(true));
+                StepOut::obs("conv pair digest")
+            }
+            ["conv", "whole", "digest"] => {
+                self.mode = Mode::Whole(Runner::new(true));
+                StepOut::obs("conv whole digest")
             }
             _ => match &mut self.mode {
                 Mode::Pair(r) => r.step(w),
@@ -578,25 +628,142 @@ fn tree_case(conv: &str, first: usize, depth: usize) -> Vec<String> {
     ops
 }
 
+
+/// The "large" profile: one deque instance goes through
+///   small fill -> a few removals from the middle (tombstones) -> `clear` ->
+///   refill with `n` keys -> removal of well over half of the inner keys in random order
+///   (both ends stay live, so nothing is cleaned up) -> probes, pops, pushes,
+/// with `first`/`last` observed after every op, `find` probes of the smallest / removed /
+/// random keys along the way, and digests of the whole iteration now and then.
+fn large_case(rng: &mut Rng, whole: bool, nmin: u64, nmax: u64) -> Vec<String> {
+    let mut ops = vec![format!("conv {} digest", if whole { "whole" } else { "pair" })];
+    let value = |rng: &mut Rng, k: u32| -> u32 { if whole { val(k) } else { rng.range(0, 99) as u32 } };
+    let rm_val = |rng: &mut Rng, k: u32| -> u32 { if whole { val(k) } else { rng.range(0, 99) as u32 } };
+    let mut next_key: u32 = rng.range(0, 20) as u32;
+    let mut live: Vec<u32> = Vec::new(); // ascending
+    let mut gone: Vec<u32> = Vec::new();
+    // phase A: small deque with tombstones in the middle, then clear
+    if !rng.chance(1, 8) {
+        let n0 = rng.range(3, 40) as usize;
+        for _ in 0..n0 {
+            next_key += rng.range(1, 3) as u32;
+            ops.push(format!("push {} {}", next_key, value(rng, next_key)));
+            live.push(next_key);
+        }
+        let t0 = rng.range(1, (n0 as u64 - 2).min(6)) as usize;
+        for _ in 0..t0 {
+            if live.len() < 3 {
+                break;
+            }
+            let i = rng.range(1, live.len() as u64 - 2) as usize;
+            let k = live.remove(i);
+            gone.push(k);
+            ops.push(format!("remove {} {}", k, rm_val(rng, k)));
+        }
+        if rng.chance(1, 3) {
+            ops.push("iter".into());
+        }
+        if !rng.chance(1, 8) {
+            ops.push("clear".into());
+            gone.extend(live.drain(..));
+        }
+    }
+    // phase B: refill
+    let n = rng.range(nmin, nmax) as usize;
+    let step = *rng.pick(&[1u64, 1, 2, 3]);
+    for _ in 0..n {
+        next_key += rng.range(1, step) as u32;
+        ops.push(format!("push {} {}", next_key, value(rng, next_key)));
+        live.push(next_key);
+    }
+    ops.push("iter".into());
+    // phase C: remove most of the inner keys, in random order
+    let percent = *rng.pick(&[55u64, 65, 80, 95]);
+    let mut inner: Vec<u32> = live[1..live.len() - 1].to_vec();
+    for i in (1..inner.len()).rev() {
+        let j = rng.below(i as u64 + 1) as usize;
+        inner.swap(i, j);
+    }
+    let nrm = (inner.len() as u64 * percent / 100) as usize;
+    for (i, &k) in inner.iter().take(nrm).enumerate() {
+        ops.push(format!("remove {} {}", k, rm_val(rng, k)));
+        if let Ok(p) = live.binary_search(&k) {
+            live.remove(p);
+        }
+        gone.push(k);
+        if i % 48 == 47 {
+            // probes: the smallest live keys, a removed key, a random live key
+            let k0 = live[rng.below(live.len().min(6) as u64) as usize];
+            ops.push(format!("find {} {}", k0, val(k0)));
+            let kg = *rng.pick(&gone);
+            ops.push(format!("find {} {}", kg, val(kg)));
+            let kl = *rng.pick(&live);
+            ops.push(format!("find {} {}", kl, val(kl)));
+        }
+        if i % 400 == 399 {
+            ops.push("iter".into());
+        }
+    }
+    // phase D: probes, pops from both ends, a few more pushes
+    ops.push("iter".into());
+    for i in 0..live.len().min(8) {
+        ops.push(format!("find {} {}", live[i], val(live[i])));
+    }
+    for _ in 0..8 {
+        let k = if rng.chance(1, 2) { *rng.pick(&live) } else { *rng.pick(&gone) };
+        ops.push(format!("find {} {}", k, val(k)));
+    }
+    for _ in 0..rng.range(0, 6) {
+        if rng.chance(1, 2) {
+            ops.push("pop_first".into());
+            if !live.is_empty() {
+                gone.push(live.remove(0));
+            }
+        } else {
+            ops.push("pop_last".into());
+            if let Some(k) = live.pop() {
+                gone.push(k);
+            }
+        }
+    }
+    ops.push("iter".into());
+    for _ in 0..rng.range(0, 4) {
+        next_key += rng.range(1, 3) as u32;
+        ops.push(format!("push {} {}", next_key, value(rng, next_key)));
+    }
+    ops.push("is_empty".into());
+    ops.push("iter".into());
+    ops
+}
+
 impl Family for SortedFamily {
     fn name(&self) -> &'static str {
         "sorted"
     }
 
     fn new_exec(&self) -> Box<dyn Exec> {
-        Box::new(SortedExec { mode: Mode::Pair(Runner::new()) })
+        Box::new(SortedExec { mode: Mode::Pair(Runner::new(false)) })
     }
 
     /// Both conventions x all op sequences over the 13-symbol alphabet (4 keys):
     /// * up to length 5 (quick) / 6 (thorough) as a tree walk through `clone()`d snapshots,
     ///   one case per first symbol (a push that panics ends its branch);
-    /// * up to length 3 (quick) / 4 (thorough) as plain sequences without clones.
+    /// * up to length 3 (quick) / 4 (thorough) as plain sequences without clones;
+    /// * the "large" profile (`large_case`) with fixed seeds.
     fn enumerated(&self, thorough: bool) -> Vec<Vec<String>> {
         let depth = if thorough { 6 } else { 5 };
         let mut cases = Vec::new();
         for conv in ["pair", "whole"] {
             for first in 0..NSYM {
                 cases.push(tree_case(conv, first, depth));
+            }
+        }
+        // the "large" profile (fixed seeds): 2 (quick) / 12 (thorough) cases per convention
+        for whole in [false, true] {
+            for i in 0..(if thorough { 12u64 } else { 2 }) {
+                let mut rng = Rng::new(0xC16_0000 + 2 * i + whole as u64);
+                let (lo, hi) = if i < 2 { (560, 800) } else { (600, 3000) };
+                cases.push(large_case(&mut rng, whole, lo, hi));
             }
         }
         let plain = if thorough { 4 } else { 3 };
@@ -625,6 +792,10 @@ impl Family for SortedFamily {
 
     fn gen_case(&self, rng: &mut Rng, _idx: u64, thorough: bool) -> Vec<String> {
         let whole = rng.chance(1, 2);
+        // now and then a large deque (quick: about 4 of 4000 cases, of moderate size)
+        if rng.chance(1, if thorough { 500 } else { 1000 }) {
+            return large_case(rng, whole, 400, if thorough { 2500 } else { 900 });
+        }
         let mut ops = vec![format!("conv {}", if whole { "whole" } else { "pair" })];
         let maxlen = if thorough { 200 } else { *rng.pick(&[10u64, 40, 200]) };
         let nops = rng.range(1, maxlen);
